@@ -13,6 +13,7 @@ from buidl.timelock import (
     Locktime,
     Sequence,
     MAX_SEQUENCE,
+    SEQUENCE_DISABLE_RELATIVE_FLAG,
 )
 
 
@@ -868,17 +869,23 @@ def op_checklocktimeverify(stack, tx_obj, input_index):
 
 
 def op_checksequenceverify(stack, tx_obj, input_index):
-    sequence = tx_obj.tx_ins[input_index].sequence
-    if not sequence.is_relative():
-        return False
     if len(stack) < 1:
+        return False
+    # the operand is a script number of at most 5 bytes
+    if len(stack[-1]) > 5:
         return False
     element = decode_num(stack[-1])
     if element < 0:
         return False
+    if element & SEQUENCE_DISABLE_RELATIVE_FLAG:
+        # BIP112: with the disable flag set the opcode behaves as a NOP
+        return True
     if tx_obj.version < 2:
         return False
-    stack_sequence = Sequence(element)
+    sequence = tx_obj.tx_ins[input_index].sequence
+    if not sequence.is_relative():
+        return False
+    stack_sequence = Sequence(element & MAX_SEQUENCE)
     if not sequence.is_comparable(stack_sequence):
         return False
     if sequence < stack_sequence:
